@@ -1,11 +1,12 @@
 from vlib.core import Check, Family
 from vlib.c03 import build_cabi
+from vlib.genidx import genidx_step   # tie A: the index / hyperslab / util-fn functions regenerated as Lean and proved equal to the hand-written model (gen_eq_*, OW/Props/GenTieIndex.lean; table TIES in vlib/genidx.py)
 from checks.models import ALL_MODELS, TOL_BY_MODEL, EXTRA_ARGS
 
 CHECK = Check(
     "C03",
     props_modules=["OW.Props.C03", "OW.Props.C03Bulk", "OW.Props.C03Full"],
-    pre_steps=[build_cabi],
+    pre_steps=[build_cabi, genidx_step],
     families=[Family("NDPAIR"), Family("ND", args=["prop=C03"], label="ND-c"),
               Family("CABI", rtol=1e-9, atol_scale=1e-12, tol_by_model=TOL_BY_MODEL, args=["models=" + ",".join(ALL_MODELS), "n=6"] + EXTRA_ARGS)],
     level="proof",
